@@ -325,10 +325,15 @@ func checkLinear(p *Program, fn *ssa.Function) (checked []string, problems []lin
 					}
 				}
 				if r, ok := ins.(*ssa.Return); ok {
+					em := m
+					if em&1 != 0 && isErrorReturn(r) {
+						// loading is abandoned with an error: no tree is produced, nothing is lost from it
+						em = (em &^ 1) | 2
+					}
 					exits = append(exits, struct {
 						pos  token.Pos
 						mask uint8
-					}{r.Pos(), m})
+					}{r.Pos(), em})
 				}
 			}
 			for _, su := range b.Succs {
